@@ -135,6 +135,42 @@ func oracle(s Stream, idx int, res *lib.Result) {
 		return
 	}
 	input := genBytes(s.Seed, 0, s.total())
+	if s.Kind == "wsbig" {
+		// every websocket feed message is handed on once, whole and unmodified, in order; a subscriber that lags
+		// may miss messages but what it gets is byte-identical to what was sent under that number, and the
+		// numbers only go up
+		if o.Err != "" {
+			bad("stream-did-not-complete", o.Err)
+		}
+		check := func(who string, got [][]byte, complete bool) {
+			idx := s.bigMatch(got)
+			lastK := -1
+			for j, f := range got {
+				k := idx[j]
+				switch {
+				case k < 0 || !bytes.Equal(f, bigMsg(k, s.Sizes[k])):
+					want := "no message sent has this length and content"
+					if k >= 0 {
+						want = fmt.Sprintf("it carries number %d, under which %d bytes %s were sent", k, s.Sizes[k], short(bigMsg(k, s.Sizes[k])))
+					}
+					bad("not-the-message-sent", fmt.Sprintf("%s: message %d received (%d bytes, %s) is not a message sent: %s", who, j, len(f), short(f), want))
+				case k <= lastK:
+					bad("repeat-or-backwards", fmt.Sprintf("%s received message number %d (%d bytes) after message number %d: repeated or backwards", who, k, len(f), lastK))
+				}
+				if k > lastK {
+					lastK = k
+				}
+			}
+			if complete && len(got) != len(s.Sizes) {
+				bad("message-count", fmt.Sprintf("%s: %d messages sent, %d handed on", who, len(s.Sizes), len(got)))
+			}
+		}
+		check("the subscriber that never lags", o.Tap, o.Err == "")
+		for d, got := range o.PerDest {
+			check(fmt.Sprintf("subscriber %d (busy %d us after every message)", d, s.SlowUs[d]), got, false)
+		}
+		return
+	}
 	if s.Kind == "agg" {
 		// every destination subscribed to the stream gets the feed messages unmodified, forward, none twice;
 		// a subscribed destination that gets nothing at all is not being forwarded to
@@ -357,6 +393,9 @@ func main() {
 			if i%23 == 8 {
 				kind = "wstext"
 			}
+			if i%23 == 2 || i%23 == 14 {
+				kind = "wsbig"
+			}
 			streams = append(streams, genStream(r, kind, i))
 		}
 	}
@@ -409,6 +448,27 @@ func main() {
 				res.Count("agg:destinations:" + s.DestKinds[d])
 				res.CountN("agg:messages-received", len(got))
 				res.CountN("agg:messages-missed", s.Count-len(got))
+			}
+		}
+		if s.Kind == "wsbig" {
+			res.CountN("wsbig:messages-sent", len(s.Sizes))
+			for i, n := range s.Sizes {
+				switch {
+				case n >= 65536:
+					res.Count("wsbig:size>=64KiB")
+				case n >= 4089:
+					res.Count("wsbig:size>=4089")
+				default:
+					res.Count("wsbig:size<4089")
+				}
+				if i < len(s.Frags) && s.Frags[i] >= 2 {
+					res.Count("wsbig:sent-as-continuation-fragments")
+				}
+			}
+			for d, got := range o.PerDest {
+				if s.SlowUs[d] > 0 {
+					res.CountN("wsbig:missed-by-a-busy-subscriber", len(s.Sizes)-len(got))
+				}
 			}
 		}
 		if s.Kind == "wstext" {
